@@ -20,7 +20,7 @@
 (***************************************************************************)
 EXTENDS Integers, Sequences, FiniteSets, TLC, Json
 
-CONSTANTS FIXED,        \* SUBSET {"F3","F4","F5","F6","F8","F18"}
+CONSTANTS FIXED,        \* SUBSET {"F3","F4","F5","F6","F8","F18","F20"}
           MaxCalls,     \* bound on life-cycle calls (SetOpt / Setup / Solve) per behaviour
           MaxIterDom,   \* values maxIterations may take, e.g. {0, 2}
           ExtDom,       \* extrapolation values, subset of 0..3
@@ -112,10 +112,15 @@ SetupBuild ==
 \* ---- solve(): initializeSolution()
 \* the start vector: zero, or the nested iteration; FMG with the defect F8 leaves the finest solution vector as it
 \* was when only two levels exist (and never uses the coarsest solve otherwise)
-StartIdeal == IF opts.fmg THEN <<"fmg", built.L>> ELSE <<"zero">>
+\* the nested iteration runs its finest-level cycles with the smoother mode in force when it starts (only the implicitly
+\* extrapolated cycles look at it); a fresh object starts it in the mode setup() chose.  F20: solve() re-armed the COMBINED
+\* strategy only AFTER initializeSolution(), so a second solve after a switch ran its FMG start-up with the stale mode
+StartMode(f) == IF opts.ext # 0 THEN f ELSE TRUE
+FgsAtStart == IF Fixed("F20") /\ opts.ext = 3 THEN TRUE ELSE fgs
+StartIdeal == IF opts.fmg THEN <<"fmg", built.L, StartMode(FgsOfSetup(opts.ext))>> ELSE <<"zero">>
 StartCode ==
   IF ~opts.fmg THEN <<"zero">>
-  ELSE IF Fixed("F8") THEN <<"fmg", built.L>>
+  ELSE IF Fixed("F8") THEN <<"fmg", built.L, StartMode(FgsAtStart)>>
   ELSE IF built.L = 2 THEN (IF start = <<"fresh-vectors">> THEN <<"zero">> ELSE <<"stale", sid>>)
   ELSE <<"fmg-without-coarsest", built.L>>
 
@@ -144,7 +149,8 @@ SolveEnter ==
   /\ pc' = "begin"
   /\ calls' = calls + 1
   /\ sh' = [FreshSh EXCEPT !.fgs = FgsOfSetup(opts.ext), !.start = StartIdeal]
-  /\ UNCHANGED <<opts, built, fgs, resNorms, exErrs, nIter, meanRho, initNorm, curNorm, k, mh, memo, stopped>>
+  /\ fgs' = FgsAtStart                 \* repaired code: the COMBINED strategy is re-armed before the start-up
+  /\ UNCHANGED <<opts, built, resNorms, exErrs, nIter, meanRho, initNorm, curNorm, k, mh, memo, stopped>>
   /\ justSolved' = FALSE
   /\ hist' = IF GenHist THEN Append(hist, [a |-> "Solve", name |-> "", val |-> 0]) ELSE hist
   /\ tsolve' = IF Fixed("F18") THEN {sid + 1} ELSE tsolve \cup {sid + 1}     \* t_solve_* += ...
